@@ -232,6 +232,15 @@ func (d *Decoder) decompress(claimedUncompressedSize int, rd io.Reader) (decompr
 	if err != nil {
 		return nil, fmt.Errorf("error decompressing payload: %w", err)
 	}
+	// The stream must end exactly at the claimed size. Reading up to its end
+	// also lets the zlib reader verify the checksum.
+	var extra [1]byte
+	if n, err := io.ReadFull(d.zrd, extra[:]); n != 0 {
+		return nil, errs.NewSilentErr("uncompressed size is greater than the claimed size %d",
+			claimedUncompressedSize)
+	} else if !errors.Is(err, io.EOF) {
+		return nil, fmt.Errorf("error decompressing payload: %w", err)
+	}
 	return decompressed, d.zrd.Close()
 }
 
